@@ -920,6 +920,12 @@ impl<'a> Gen<'a> {
                 self.declare(&name, ta.or(tb));
                 Stmt::Let(name, Box::new(Stmt::If(c, Box::new(a), Some(Box::new(b)))))
             }
+            3 if self.scopes.len() == 1 && self.fn_ret.is_none() && self.p.cells > 0 && self.tape.chance(1, 3) => {
+                let mut stmts = self.closure_factory(name, depth);
+                let first = stmts.remove(0);
+                self.pending.extend(stmts);
+                first
+            }
             3 => {
                 // a function value bound with := (anonymous: cannot call itself)
                 let pt: Vec<Ty> = (0..self.tape.below(3)).map(|_| self.gen_ty(1)).collect();
@@ -979,6 +985,55 @@ impl<'a> Gen<'a> {
     /// `{ k := mut 0; name := () -> (bool, int) { v := *k; k += 1; if v >= n { return (false, f); }; if v % 2 == 0 { return name(); }; return (true, v); }; name }`
     /// a named iterator that skips elements by calling itself by name; the caller may save it under
     /// another name and re-declare the original name afterwards
+    /// `mk := (n: int) -> () -> int { c := mut int n; return () -> int { c += <step>; return *c; }; };
+    ///  a := mk(e1); b := mk(e2)`: each call of the factory makes a cell of its own, and each closure
+    /// keeps the cell and the parameter of the call that made it
+    fn closure_factory(&mut self, name: String, depth: usize) -> Vec<Stmt> {
+        self.label("closure factory");
+        let mk = self.fresh_name("mk");
+        let cell = NAMES[self.tape.below(4)].to_string();
+        let param = if self.tape.bool() { "n".to_string() } else { NAMES[self.tape.below(4)].to_string() };
+        let (cell, param) = if cell == param { (cell, "n".to_string()) } else { (cell, param) };
+        let declared = self.tape.bool();
+        // inner closure: c += step; return *c (+ n)
+        let step = Expr::Int(self.tape.range(1, 3));
+        let ret_inner = if self.tape.bool() {
+            Expr::Deref(Box::new(Expr::Var(cell.clone())))
+        } else {
+            Expr::Bin("+", Box::new(Expr::Deref(Box::new(Expr::Var(cell.clone())))), Box::new(Expr::Var(param.clone())))
+        };
+        let inner = Expr::Lambda(
+            vec![],
+            Ty::Int,
+            vec![
+                Stmt::Expr(Expr::Assign("+=", Box::new(Expr::Var(cell.clone())), Box::new(step))),
+                Stmt::Return(Some(Box::new(Stmt::Expr(ret_inner)))),
+            ],
+        );
+        let init = if declared { Expr::MutNew(Ty::Int, Box::new(Expr::Int(0))) } else { Expr::MutNew(Ty::Int, Box::new(Expr::Var(param.clone()))) };
+        let closure_ty = Ty::fun(vec![], Ty::Int);
+        let body = vec![Stmt::Let(cell.clone(), Box::new(Stmt::Expr(init))), Stmt::Return(Some(Box::new(Stmt::Expr(inner))))];
+        let mut out = vec![Stmt::FnDecl(mk.clone(), vec![(param, Ty::Int)], closure_ty.clone(), body)];
+        self.declare(&mk, Ty::fun(vec![Ty::Int], closure_ty.clone()));
+        let a1 = self.expr(&Ty::Int, depth.saturating_sub(1));
+        out.push(Stmt::Let(name.clone(), Box::new(Stmt::Expr(Expr::Call(Box::new(Expr::Var(mk.clone())), vec![a1])))));
+        self.declare(&name, closure_ty.clone());
+        let second = self.name_for_decl();
+        if second != name {
+            let a2 = self.expr(&Ty::Int, depth.saturating_sub(1));
+            out.push(Stmt::Let(second.clone(), Box::new(Stmt::Expr(Expr::Call(Box::new(Expr::Var(mk)), vec![a2])))));
+            self.declare(&second, closure_ty);
+        }
+        // call them a few times so that their states become visible
+        for _ in 0..1 + self.tape.below(3) {
+            let which = if self.tape.bool() { name.clone() } else { second.clone() };
+            let v = self.fresh_name("v");
+            out.push(Stmt::Let(v.clone(), Box::new(Stmt::Expr(Expr::Call(Box::new(Expr::Var(which)), vec![])))));
+            self.declare(&v, Ty::Int);
+        }
+        out
+    }
+
     fn recursive_iterator(&mut self, name: String) -> Vec<Stmt> {
         self.label("iterator calling itself by name");
         let cell = self.fresh_name("k");
